@@ -116,6 +116,70 @@ static void op_c09_sweep(Exec& x, const Json& op, int)
 	x.out.sample = smp;
 }
 
+// (b2) a copy other than the one that gets loaded has lost or gained bytes (or is gone): the tool notices the different
+// length, and a successful sync - also one with nothing else to do - leaves every copy complete and identical again
+static void op_c09_secondary(Exec& x, const Json& op, int)
+{
+	if (x.sb.cfg.content.size() < 2) return;
+	Bytes orig;
+	if (!x.sb.get_file(x.sb.cfg.content[0], orig) || orig.size() < 16) return;
+	Snap pre = x.sb.snapshot_all();
+	int64_t pre_now = x.sb.now_s;
+	unsigned pre_idx = x.sb.cmd_index;
+	Rng r((uint64_t)op.num("seed"));
+	int n = (int)op.num("n", 4);
+	x.check_parity_every_cmd = false;
+	for (int k = 0; k < n; ++k) {
+		x.sb.restore_all(pre);
+		x.sb.now_s = pre_now;
+		x.sb.cmd_index = pre_idx;
+		size_t ci;
+		int kind;
+		uint64_t len;
+		bool pending;
+		if (x.focused()) { ci = (size_t)x.focus().num("copy"); kind = (int)x.focus().num("kind"); len = (uint64_t)x.focus().num("len"); pending = x.focus().num("pending") != 0; }
+		else { ci = 1 + r.below(x.sb.cfg.content.size() - 1); kind = (int)r.below(3); len = kind == 0 ? r.below(orig.size()) : 1 + r.below(200); pending = r.chance(1, 3); }
+		if (ci >= x.sb.cfg.content.size()) continue;
+		Json focus = Json::obj().set("copy", (uint64_t)ci).set("kind", kind).set("len", len).set("pending", pending ? 1 : 0);
+		std::string rel = x.sb.cfg.content[ci];
+		Bytes d;
+		if (!x.sb.get_file(rel, d)) continue;
+		std::string what;
+		switch (kind) {
+		case 0: d.resize((size_t)std::min<uint64_t>(len, d.size() ? d.size() - 1 : 0)); write_file(x.sb.abs(rel), d); what = strf("%s truncated to %zu bytes", rel.c_str(), d.size()); break;
+		case 1: d += gen_bytes(r.next(), (size_t)len); write_file(x.sb.abs(rel), d); what = strf("%s with %llu extra bytes", rel.c_str(), (unsigned long long)len); break;
+		default: x.sb.remove_path(rel); what = rel + " deleted"; break;
+		}
+		if (pending) { int64_t s, ns; x.sb.next_stamp(s, ns); x.sb.put_file(x.sb.cfg.disks[0].top + "/c09_new_file", gen_bytes(r.next(), 1 + r.below(3000)), s, ns); }
+		CmdSpec sy;
+		sy.cmd = "sync";
+		sy.sched_seed = r.next() >> 1;
+		CmdResult r1 = x.cmd(sy, false);
+		++x.out.cases;
+		++x.out.nontrivial_cases;
+		x.out.case_hashes.insert(mix64(hash_str(focus.dump()), x.plan->seed));
+		std::string when = std::string("sync") + (pending ? " (one new file)" : " (nothing else to do)") + " with " + what;
+		if (r1.harness_error) { x.harness("c09 secondary"); return; }
+		if (r1.sanitizer()) { x.violation("C09", "memory-unsafe", when + ": sanitizer report: " + r1.err.substr(0, 700), focus); continue; }
+		if (r1.exit_code != 0) { x.probe("c09.secondary_sync_failed"); continue; } // refusing is allowed; accepting obliges
+		Bytes first;
+		bool have = false;
+		for (auto& c : x.sb.cfg.content) {
+			Bytes b;
+			if (!x.sb.get_file(c, b)) { x.violation("C09", "content-copy-missing-after-sync", when + ": " + c + " does not exist after the successful sync", focus); continue; }
+			Content dc;
+			if (!content_decode(b, dc).empty()) x.violation("C09", "content-copy-damaged-after-sync", when + ": " + c + " is not a complete content file after the successful sync", focus);
+			if (!have) { first = b; have = true; } else if (b != first) x.violation("C09", "content-copies-differ", when + ": " + c + " differs from the first copy after the successful sync", focus);
+		}
+		x.probe("c09.secondary_copy_cases");
+	}
+	x.sb.restore_all(pre);
+	x.sb.now_s = pre_now;
+	x.sb.cmd_index = pre_idx;
+	x.check_parity_every_cmd = true;
+	x.out.nontrivial = x.out.nontrivial_cases > 0;
+}
+
 // (c) silent corruption of a write into a content ".tmp": the re-read + checksum verification must stop the save
 static void op_c09_savefault(Exec& x, const Json& op, int)
 {
@@ -214,7 +278,10 @@ static RunPlan gen_contentdamage(uint64_t seed, int tier)
 	}
 	if (rng.chance(1, 3)) { CmdSpec s; s.cmd = "sync"; s.opts = { "-B", "2" }; p.ops.push_back(op_cmd(gen_sched(rng, s))); }
 	if (rng.chance(1, 3)) { CmdSpec s; s.cmd = "scrub"; s.opts = { "-p", "50", "-o", "0" }; p.ops.push_back(op_cmd(gen_sched(rng, s))); }
+	// the sweep wants whatever state the history left; the secondary-copy cases want a state a plain sync accepts
 	p.ops.push_back(Json::obj().set("k", "c09_sweep").set("seed", rng.next() >> 1).set("limit", tier ? 0 : 120));
+	{ CmdSpec s; s.cmd = "sync"; s.opts = { "-E", "-Z" }; p.ops.push_back(op_cmd(gen_sched(rng, s))); }
+	p.ops.push_back(Json::obj().set("k", "c09_secondary").set("seed", rng.next() >> 1).set("n", tier ? 24 : 6));
 	return p;
 }
 
@@ -223,6 +290,7 @@ static struct RegContentDamage {
 	{
 		Exec::register_op("c09_sweep", op_c09_sweep);
 		Exec::register_op("c09_savefault", op_c09_savefault);
+		Exec::register_op("c09_secondary", op_c09_secondary);
 		Family f;
 		f.name = "content-damage";
 		f.prop = "C09";
